@@ -18,7 +18,12 @@ type c12 struct{}
 
 func init() { engine.Register(c12{}) }
 
-func (c12) PostGenerate(r *engine.Rand, sc *engine.Scenario) { chooseEnv(r, sc) }
+func (c12) PostGenerate(r *engine.Rand, sc *engine.Scenario) {
+	chooseEnv(r, sc)
+	if r.Chance(1, 3) {
+		addOtherUnitEvents(r, sc, exclTimer)
+	}
+}
 
 func (c12) ID() string { return "C12" }
 
@@ -412,6 +417,9 @@ func (c12) Execute(sc *engine.Scenario) *engine.Result {
 		return res
 	}
 	apply := func(ev *engine.Event) {
+		if applyOther(m, ev, res) {
+			return
+		}
 		sig := ref.TAC&4 != 0
 		ph := phaseName()
 		switch ev.A {
